@@ -31,6 +31,21 @@ Theorem C10_adjacency : forall p t sp, valid_tok p = true -> valid_tok t = true 
   else adj_stable (out_last p) (out_first t) = true.
 Proof. exact junction. Qed.
 
+(** lines joined by the ";" unsplit marker (parse.rs flip_unsplit_lines_impl, modelled by
+    [unsplit_lines]): the joined line is formatted like any other line, so two words that come from
+    different source lines are never merged *)
+Theorem C10_unsplit_relex : forall in_array acc ls,
+  wf_tokens (unsplit_lines in_array acc ls) = true ->
+  lex (render (unsplit_lines in_array acc ls)) = norm (unsplit_lines in_array acc ls).
+Proof. intros in_array acc ls; exact (relex_render _). Qed.
+
+(** "(X ;⏎Y)" is printed "(Y X)": the identifiers of the two lines stay apart *)
+Example C10_nonvacuous_unsplit :
+  let ts := (TOpen 40 :: unsplit_lines false (unsplit_first true [TUpper [88] 0]) [[TUpper [89] 0]] ++ [TClose 41])%N in
+  wf_tokens ts = true /\ render ts = [40; 89; 32; 88; 41]%N /\
+  lex (render ts) = [TOpen 40; TUpper [89] 0; TSpace false; TUpper [88] 0; TClose 41]%N.
+Proof. vm_compute. repeat split; reflexivity. Qed.
+
 (** V tie validator: a structural comparison of the compiled trees of [s] and [format s] that
     answers [true] only for identical trees ... *)
 Theorem C10_node_eqb_sound : forall a b, node_eqb a b = true -> a = b.
@@ -66,5 +81,6 @@ Print Assumptions C10_relex_render.
 Print Assumptions C10_render_idempotent.
 Print Assumptions C10_relex_render_fixed.
 Print Assumptions C10_adjacency.
+Print Assumptions C10_unsplit_relex.
 Print Assumptions C10_node_eqb_sound.
 Print Assumptions C10_prog_eqb_sound.
